@@ -99,7 +99,7 @@ var quickAlpha = alphabet{
 		"127.1", "2130706433", "nodot", "bücher.example", "[::1]"},
 	port:  []string{"", ":80", ":8080"},
 	path:  []string{"", "/", "/a/b", "/x%2Fy", "/secret/z", "/a/50%25off"}, // the last: an encoded percent sign (decodes to a stray "%")
-	query: []string{"", "?a=1", "?u=secret", "?u=secret&d=100%"}, // the last: a bare percent sign (URLs keep it)
+	query: []string{"", "?a=1", "?u=secret", "?u=secret&d=100%"},           // the last: a bare percent sign (URLs keep it)
 	wrap:  []string{"%s", `"%s"`, `'%s'`},
 }
 
@@ -129,11 +129,41 @@ var textFocus = alphabet{
 	wrap:   append(append([]string{}, quickAlpha.wrap...), " %s", `'"%s"'`, "%s "),
 }
 
+// opaqueFocus: URIs of other schemes in their opaque form (no "//" after the colon), whose opaque part may start
+// with a digit, hold an "@" and a dotted host - everything a lenient "host:port/path" reading could mistake for an
+// http URL; both tiers, every position.
+var opaqueFocus = alphabet{
+	scheme: []string{"sip:", "mailto:", "xmpp:", "tel:", "urn:", "javascript:", "data:", "http://", ""},
+	user:   []string{"", "u@", "1000@", "42:x@", "+33@"},
+	host:   []string{"in.example", "out.example", "localhost", "nodot", "8.example"},
+	port:   []string{"", ":8080"},
+	path:   []string{"", "/a/b", "/i.png"},
+	query:  []string{"", "?subject=hello"},
+	wrap:   []string{"%s", `"%s"`},
+}
+
 func alphabets(tier string, pos Position) []alphabet {
 	if tier == "thorough" && len(pos.Edges) <= 1 && pos.Sib == 0 {
-		return []alphabet{quickAlpha, hostFocus, textFocus}
+		return []alphabet{quickAlpha, opaqueFocus, hostFocus, textFocus}
 	}
-	return []alphabet{quickAlpha} // quick, and the deep and sibling positions of thorough
+	return []alphabet{quickAlpha, opaqueFocus} // quick, and the deep and sibling positions of thorough
+}
+
+// foreignSchemes: scheme names that are not http(s); a text that starts with one of them and a colon names a URI of
+// that scheme whatever follows (RFC 3986), for a browser as for the property.
+var foreignSchemes = map[string]bool{"ftp": true, "javascript": true, "data": true, "mailto": true, "sip": true, "xmpp": true, "tel": true, "urn": true}
+
+// foreignScheme returns the scheme a URL text names when it is one of foreignSchemes, else "".
+func foreignScheme(text string) string {
+	t := strings.Trim(text, " \"'")
+	i := strings.IndexByte(t, ':')
+	if i <= 0 {
+		return ""
+	}
+	if s := strings.ToLower(t[:i]); foreignSchemes[s] {
+		return s
+	}
+	return ""
 }
 
 // relative forms (those of C09 plus scope-relevant targets), resolved against relParents.
